@@ -1,4 +1,7 @@
 import ArgMapper.Spec.Flow
+import ArgMapper.Proofs.ReachSound
+import ArgMapper.Proofs.FlowCompat
+import ArgMapper.Proofs.CallGraphEdges
 /-!
 # C01 — every injected value is a label- and type-correct binding, never fabricated
 
@@ -46,42 +49,87 @@ reaches a parameter vertex by vertex-to-vertex copies has a compatible label. Ne
 `Implements` and excludes twin interfaces (`ImplAntisym`, finding F14). -/
 theorem flow_compat (e : TypeEnv) (ht : ImplTrans e) (ha : ImplAntisym e) (o x : Vtx)
     (ho : o.isOrigin = true) (hx : x.isValue = true ∨ x.isArg = true) (h : RuleFlow e o x) :
-    compatB e x.label o.label = true := by
-  sorry
+    compatB e x.label o.label = true :=
+  FlowCompat.flow_compat e ht ha o x ho hx h
 
 /-- **edge characterisation** — every edge of the graph `callGraph` builds (with the repaired rules)
 is an instance of one of the rules R0–R8 -/
 theorem callGraph_edges (e : TypeEnv) (b : Builder) (funcs : Nat → Option FuncDesc) (target : FuncDesc)
     (redefining : Bool) (filter : Option Filter) :
-    EdgeOK e (callGraph {} e b funcs target redefining filter).cg.g := by
-  sorry
+    EdgeOK e (callGraph {} e b funcs target redefining filter).cg.g :=
+  CGE.callGraph_edgeOK e b funcs target redefining filter
 
-/-- **dynamic part** — for any graph whose edges obey the rules and any legal-or-not oracle (every path
-handed to `reach` is checked to be a real path ending in the requirement, nothing more), every
-function executed during `Call` receives a full argument list whose members entered the graph at
-an origin vertex and flowed to the parameter's vertex. -/
-theorem call_args_flow (c : Ctx) (hg : EdgeOK c.env c.g) (hf : FuncsOK c) (cgr : CallGraphResult)
+/-- **dynamic part** — for any graph whose edges obey the rules and in which no typed-argument vertex
+hangs off the root (`hnar`), and any legal-or-not oracle (every path handed to `reach` is checked to
+be a real path from the root ending in the requirement, nothing more), every function executed
+during `Call` receives a full argument list whose members entered the graph at an origin vertex and
+flowed to the parameter's vertex.  (Corrected statement: the original, without `hnar` and with
+paths not required to start at the root, is false — see the comment below.) -/
+theorem call_args_flow (c : Ctx) (hg : EdgeOK c.env c.g) (hf : FuncsOK c)
+    (hnar : ∀ t s, c.g.hasEdge (.arg t s) .root = false) (cgr : CallGraphResult)
     (target : FuncDesc) (hcg : cgr.cg.g = c.g) (htv : cgr.target = .func target.key)
     (fuel : Nat) (s0 : CallSt) (hs : StoreOK c.g s0) (hl : s0.log = []) :
-    ∀ ev ∈ (callWith c cgr target fuel s0).2.log, ArgsFlow c.g ev := by
-  sorry
+    ∀ ev ∈ (callWith c cgr target fuel s0).2.log, ArgsFlow c.g ev :=
+  ReachSound.callWith_args_flow c hg hf hnar cgr target htv fuel s0 hs hl
+
+/- ORIGINAL STATEMENT of `call_args_flow` — FALSE (corrected above).  It had no hypothesis `hnar`, and
+`validPath` did not require a path to start at the root:
+
+    theorem call_args_flow (c : Ctx) (hg : EdgeOK c.env c.g) (hf : FuncsOK c) (cgr : CallGraphResult)
+        (target : FuncDesc) (hcg : cgr.cg.g = c.g) (htv : cgr.target = .func target.key)
+        (fuel : Nat) (s0 : CallSt) (hs : StoreOK c.g s0) (hl : s0.log = []) :
+        ∀ ev ∈ (callWith c cgr target fuel s0).2.log, ArgsFlow c.g ev
+
+Why it fails: `CallSt.last` survives from one path to the next, and an arg vertex writes `last` into
+its own store (`walkStep`, case `.arg`).  An arg vertex that is the first vertex of its path — or
+that directly follows the root (an R8 edge `arg → root`, which `EdgeOK` allows) — therefore takes
+the value left over by the *previous* path, which need not flow to it.
+
+Counterexample (evaluated with `#eval` on the model before the correction): graph edges
+`func 0 → arg 1 "a"`, `func 0 → arg 1 "b"`, `arg 1 "a" → out 1 "a"`, `out 1 "a" → root` (each an
+`EdgeRule` instance); target with typed parameters `(1,"a")`, `(1,"b")`;
+`store = [(out 1 "a", ⟨1, 5, out 1 "a"⟩)]`, `last = none`;
+`orc = [{ target := func 0, missing := [arg 1 "a", arg 1 "b"],
+          paths := [[root, out 1 "a", arg 1 "a"], [arg 1 "b"]] }]`.
+The old `validPath` accepted the one-vertex path `[arg 1 "b"]`; the call succeeds and logs
+`args = [⟨1,5,out 1 "a"⟩, ⟨1,5,out 1 "a"⟩]` for `params = [(1,"a"), (1,"b")]`: the second argument's
+origin `out 1 "a"` does not flow to `arg 1 "b"` (that vertex has no out-edge), and `compatB` between
+the labels is `false` as well.
+
+Correction (smallest found): paths are root-first (`validPath` now checks `p.head? = some root`, as
+`EdgeToPath` over Dijkstra's predecessor map guarantees) and no typed-argument vertex hangs off the
+root (`hnar`; true of every `Call` graph — only Redefine's rule R8 creates such edges).  Then an arg
+vertex on a path always follows a value or out vertex, which has just refreshed `last`.
+Both parts are needed: with root-first paths alone, adding the R8 edge `arg 1 "b" → root` and the path
+`[root, arg 1 "b"]` to the example reproduces the same wrong argument (also checked with `#eval`). -/
 
 /-- the initial state of a call satisfies `StoreOK`: supplied values sit at their own vertices -/
 theorem initSt_storeOK (cg : CG) (memo : List (Nat × Memo)) (orc : List OrcItem)
     (hcg : ∀ x v, mapGet cg.store x = some v → x.isOrigin = true) :
-    StoreOK cg.g (initSt cg memo orc) := by
-  sorry
+    StoreOK cg.g (initSt cg memo orc) :=
+  ReachSound.initSt_storeOK cg memo orc hcg
 
 /-- `Flow` in a graph whose edges obey the rules is `RuleFlow` -/
 theorem flow_ruleFlow (e : TypeEnv) (g : AGraph Vtx) (hg : EdgeOK e g) (o x : Vtx) (h : Flow g o x) :
-    RuleFlow e o x := by
-  sorry
+    RuleFlow e o x :=
+  FlowCompat.flow_ruleFlow hg h
+
+/-- the value store of the graph `callGraph` builds is only written at origin vertices (by
+`inputsGraph`, at the value / output vertices of the supplied values) -/
+theorem callGraph_store_origin (e : TypeEnv) (b : Builder) (funcs : Nat → Option FuncDesc)
+    (target : FuncDesc) (redefining : Bool) (filter : Option Filter) :
+    ∀ x v, mapGet (callGraph {} e b funcs target redefining filter).cg.store x = some v →
+      x.isOrigin = true :=
+  fun x v h => CGE.callGraph_store_isOrigin e b funcs target redefining filter x v h
 
 /-- **C01_injection_sound_partial** — `Call` on the graph built by `callGraph`: for all supplied values,
 converter sets, target signatures, behaviours and oracles, every executed function (target or
 converter) gets one value per declared parameter, each supplied by the caller or returned by a
 converter (its origin is an origin vertex) and label-compatible with the parameter under the
 matching table.
+
+`hnar` (no typed-argument vertex hangs off the root) is what `call_args_flow` needs; it holds for
+every graph built without Redefine (only rule R8 creates such edges).
 
 Partial with respect to the property's sentence in one hypothesis: `ImplAntisym` (no two distinct
 interface types implement each other).  The full-strength statement is false without it — see
@@ -90,12 +138,25 @@ theorem injection_sound_partial (e : TypeEnv) (ht : ImplTrans e) (ha : ImplAntis
     (b : Builder) (funcs : Nat → Option FuncDesc) (target : FuncDesc)
     (c : Ctx) (henv : c.env = e)
     (hcg : c.g = (callGraph {} e b funcs target false none).cg.g) (hf : FuncsOK c)
+    (hnar : ∀ t s, c.g.hasEdge (.arg t s) .root = false)
     (hsup : ∀ x v, mapGet (callGraph {} e b funcs target false none).cg.store x = some v → x.isOrigin = true)
     (fuel : Nat) (memo : List (Nat × Memo)) (orc : List OrcItem) :
     ∀ ev ∈ (callWith c (callGraph {} e b funcs target false none) target fuel
               (initSt (callGraph {} e b funcs target false none).cg memo orc)).2.log,
       ArgsOK e ev := by
-  sorry
+  intro ev hev
+  have hg : EdgeOK c.env c.g := by
+    rw [henv, hcg]; exact callGraph_edges e b funcs target false none
+  have hs : StoreOK c.g (initSt (callGraph {} e b funcs target false none).cg memo orc) := by
+    rw [hcg]; exact initSt_storeOK _ memo orc hsup
+  obtain ⟨hlen, hall⟩ := call_args_flow c hg hf hnar (callGraph {} e b funcs target false none) target
+    hcg.symm rfl fuel _ hs rfl ev hev
+  refine ⟨hlen, fun i p a hp hai => ?_⟩
+  obtain ⟨hor, hfl⟩ := hall i p a hp hai
+  refine ⟨hor, ?_⟩
+  have := flow_compat e ht ha a.org p.vertex hor (FlowCompat.Label.vertex_isParam p)
+    (flow_ruleFlow e c.g (henv ▸ hg) _ _ hfl)
+  rwa [FlowCompat.Label.vertex_label] at this
 
 /-- the rule set is *not* closed under composition when two distinct interface types implement each
 other: a value labelled subtype `y` flows to a parameter requiring subtype `x` of the same
@@ -104,6 +165,11 @@ theorem counterexample_twin_interfaces :
     let e : TypeEnv := { isIface := fun t => t == 10 || t == 13,
                          impl := fun t i => (i == 10 || i == 13) && (t == 10 || t == 13 || t == 4) }
     RuleFlow e (.out 10 "y") (.arg 10 "x") ∧ compatB e (Vtx.arg 10 "x").label (Vtx.out 10 "y").label = false := by
-  sorry
+  intro e
+  refine ⟨?_, by decide⟩
+  refine .step rfl (.argOut 10 "x") ?_
+  refine .step rfl (.ifaceOut 10 "x" 13 "" rfl rfl (by decide)) ?_
+  refine .step rfl (.ifaceOut 13 "" 10 "y" rfl rfl (by decide)) ?_
+  exact .here rfl
 
 end ArgMapper.C01
